@@ -42,6 +42,9 @@ pub struct StatusPlan {
     /// while the thread that started the child lives on
     #[serde(default)]
     pub other_thread: bool,
+    /// file name of the child's executable (names with blanks and parentheses are names too)
+    #[serde(default)]
+    pub prog_name: Option<String>,
 }
 
 const DAY: u64 = 86_400 * 1_000_000_000;
@@ -102,7 +105,10 @@ pub fn generate(prop: &str, rng: &mut Rng, plan: &mut Plan, index: u64) {
         ops.push(Op::Raise { sig });
         ops.push(Op::Exit { code: 99 });
     }
-    plan.add_program("child", ops);
+    if rng.chance(1, 6) {
+        sp.prog_name = Some(rng.pick(&["nightly job", "a b c", "x (y) z", "(init)", "tool) 1 (x"]).to_string());
+    }
+    plan.add_program(sp.prog_name.as_deref().unwrap_or("child"), ops);
     // API history
     let n = 2 + rng.below(11) as usize;
     let long_ok = index % 97 == 0; // a few runs may wait for hours without the child exiting
@@ -279,7 +285,8 @@ fn class(s: ExitStatus) -> &'static str {
 pub fn run(plan: &Plan, sp: &StatusPlan) -> FamOut {
     let _cost = plan.knobs.cost_ns;
     let cfg = PopenConfig { detached: sp.detached, setpgid: sp.setpgid, ..Default::default() };
-    let r = lib("Popen::create", || Popen::create(&["/bin/child"], cfg));
+    let exe = format!("/bin/{}", sp.prog_name.as_deref().unwrap_or("child"));
+    let r = lib("Popen::create", || Popen::create(&[&exe], cfg));
     let p = match r {
         Ok(Ok(p)) => p,
         Ok(Err(e)) => {
